@@ -47,3 +47,80 @@ package server
 //@   assert@before:provingError origin(err, "ProveInsertion|ProveDeletion")
 //@   assert@before:unexpectedError origin(err, "Marshal")
 //@   assert@return w.status == 200 ==> origin(proof, "ProveInsertion.0|ProveDeletion.0") && w.body == json.proofDocOf(deref(proof).Proof)
+
+// ---------------------------------------------------------------------------------------
+// C14 — shutdown ordering (safety skeleton; no schedules explored, liveness not decided)
+// Events of the ghost trace: recv(ch), close(ch), call(f), Shutdown(server), Close(server).
+// ---------------------------------------------------------------------------------------
+
+//@ func (*RunningJob) RequestStop
+//@   property C14
+//@   modifies trace
+//@   ensures trace == trace.ev(old(trace), "close", server.stop)
+
+//@ func (*RunningJob) AwaitStop
+//@   property C14
+//@   modifies trace
+//@   ensures trace == trace.ev(old(trace), "recv", server.closed)
+
+// the goroutine spawned by SpawnJob: waits for the stop request, runs shutdown to completion, only then signals closed
+//@ func SpawnJob.go:1
+//@   property C14
+//@   modifies trace
+//@   ensures trace == trace.ev(trace.ev(trace.ev(old(trace), "recv", stop), "call", shutdown), "close", closed)
+
+//@ func SpawnJob
+//@   property C14
+//@   modifies trace
+//@   ensures trace.count(trace, "go-literal") == trace.count(old(trace), "go-literal") + 1
+//@   lemmas trace_count
+
+// shutdown of a combined job: every job is asked to stop before any is awaited, and all are awaited
+//@ func CombineJobs.lit:shutdown
+//@   property C14
+//@   modifies trace
+//@   ensures trace.count(trace, "close") == trace.count(old(trace), "close") + len(jobs)
+//@   ensures trace.count(trace, "recv") == trace.count(old(trace), "recv") + len(jobs)
+//@   ensures forall k :: 0 <= k && k < len(jobs) ==> trace.has(trace, "close", jobs[k].stop) && trace.has(trace, "recv", jobs[k].closed)
+//@   lemmas trace_count trace_has
+//@   loop 1
+//@     invariant 0 <= iter && iter <= len(jobs)
+//@     invariant trace.count(trace, "close") == trace.count(old(trace), "close") + iter
+//@     invariant trace.count(trace, "recv") == trace.count(old(trace), "recv")
+//@     invariant forall k :: 0 <= k && k < iter ==> trace.has(trace, "close", jobs[k].stop)
+//@   loop 2
+//@     invariant 0 <= iter && iter <= len(jobs)
+//@     invariant trace.count(trace, "close") == trace.count(old(trace), "close") + len(jobs)
+//@     invariant trace.count(trace, "recv") == trace.count(old(trace), "recv") + iter
+//@     invariant forall k :: 0 <= k && k < len(jobs) ==> trace.has(trace, "close", jobs[k].stop)
+//@     invariant forall k :: 0 <= k && k < iter ==> trace.has(trace, "recv", jobs[k].closed)
+
+// shutting a server job down is http.Server.Shutdown (drains connections) with a background context, never Close
+//@ func spawnServerJob.lit:shutdown
+//@   property C14
+//@   modifies trace
+//@   ensures trace.count(trace, "Shutdown") == trace.count(old(trace), "Shutdown") + 1
+//@   ensures trace.count(trace, "Close") == trace.count(old(trace), "Close")
+//@   ensures trace.has(trace, "Shutdown", server)
+//@   lemmas trace_count trace_has
+//@   assert@before:Shutdown origin(arg0, "Background")
+
+// ---------------------------------------------------------------------------------------
+// C20 / C14 — Run: one registry, /prove registered through the instrumented mux, two servers, both jobs combined
+// ---------------------------------------------------------------------------------------
+
+//@ func Run
+//@   property C20 C14
+//@   requires config.Mode == "insertion" || config.Mode == "deletion"
+//@   requires !isnil(provingSystem)
+//@   assert@before:HandlerFor origin(arg0, "NewRegistry")
+//@   assert@before:NewWrappedServeMuxWithMetrics origin(arg0, "NewRegistry")
+//@   assert@before:spawnServerJob (arg0.Handler == metricsMux && arg0.Addr == config.MetricsAddress) || (arg0.Handler == proverMux && arg0.Addr == config.ProverAddress)
+//@   assert@before:CombineJobs len(arg0) == 2 && arg0[0] == metricsJob && arg0[1] == proverJob
+//@   assert@return metricsMux.pattern == "/metrics" && metricsMux.handler == prom.metricsHandler(registry) && metricsMux.registrations == 1
+//@   assert@return proverMux.pattern == "/prove" && proverMux.registry == registry
+//@   assert@return !(metricsServer == proverServer) && called("spawnServerJob")
+
+//@ func spawnServerJob
+//@   property C14
+//@   ensures called("SpawnJob")
